@@ -31,6 +31,9 @@ pub struct Step {
     pub cmd: Cmd,
     /// let the cluster become quiet before the next command
     pub settle: bool,
+    /// the line ends with CR LF (a telnet-like TCP client): the CR is no part of the command
+    #[serde(default)]
+    pub crlf: bool,
 }
 
 #[derive(Clone, Debug, Serialize, Deserialize)]
@@ -57,8 +60,8 @@ pub fn cmd_strategy() -> impl Strategy<Value = Cmd> {
 }
 
 pub fn case_strategy() -> impl Strategy<Value = Case> {
-    (2..4usize, prop::collection::vec((0..3usize, cmd_strategy(), prop::bool::weighted(0.6)), 1..9), prop::collection::vec(prop_oneof![3 => Just(0u16), 1 => any::<u16>()], 0..60))
-        .prop_map(|(n, steps, schedule)| Case { n, steps: steps.into_iter().map(|(at, cmd, settle)| Step { at, cmd, settle }).collect(), schedule })
+    (2..4usize, prop::collection::vec((0..3usize, cmd_strategy(), prop::bool::weighted(0.6), prop::bool::weighted(0.15)), 1..9), prop::collection::vec(prop_oneof![3 => Just(0u16), 1 => any::<u16>()], 0..60))
+        .prop_map(|(n, steps, schedule)| Case { n, steps: steps.into_iter().map(|(at, cmd, settle, crlf)| Step { at, cmd, settle, crlf }).collect(), schedule })
 }
 
 pub fn chooser(schedule: Vec<u16>) -> impl FnMut(usize) -> usize {
@@ -180,6 +183,7 @@ pub fn run_case(ctx: &Ctx, case: &Case) -> Outcome {
             }
             let cur = key_of(&st.cmd).and_then(|k| c.nodes[at].node.as_ref().unwrap().dump().get("d").and_then(|m| m.get(&k).map(|v| v.1))).unwrap_or(0);
             let line = render(&st.cmd, &format!("v{}", i), cur);
+            let line = if st.crlf { format!("{}\r", line) } else { line };
             c.client(at, admin_lines("d", "tok", &line));
             if let Some(k) = key_of(&st.cmd) {
                 last_touch.entry(k.clone()).or_default().push((cmd_name(&st.cmd).to_string(), role));
